@@ -18,7 +18,7 @@ pub struct Case {
     pub params: Vec<(String, Option<String>)>,
     /// marketing parameters (key from the configured set, simple value) and the positions they are spliced in at
     pub marketing: Vec<(u8, String, String)>,
-    /// redirect target: 0 `/t`, 1 `/t#frag`, 2 `/t?x=1#frag`, 3 `/t?x=1`
+    /// redirect target: 0 `/t`, 1 `/t#frag`, 2 `/t?x=1#frag`, 3 `/t?x=1`, 4 `/t#/route?tab=1`, 5 `/t?x=1#a?b`
     #[serde(default)]
     pub target_kind: u8,
     /// an empty parameter (`=`, empty key and empty value) is spliced into the query; like a repeated key, only P1 / P4 / P6 are then required
@@ -164,7 +164,8 @@ pub fn check(case: &Case) -> Outcome {
     }
     let case = &Case { params: params_owned, ..case.clone() };
     let u = url_of(&case.path, &case.params);
-    let target = ["/t", "/t#frag", "/t?x=1#frag", "/t?x=1"][case.target_kind as usize % 4];
+    // kinds 4 and 5 (round 4): a fragment that itself holds a question mark (client-side routes)
+    let target = ["/t", "/t#frag", "/t?x=1#frag", "/t?x=1", "/t#/route?tab=1", "/t?x=1#a?b"][case.target_kind as usize % 6];
     // forwarded parameters go in front of the fragment
     let with_params = |p: &str| -> String {
         let (base, frag) = match target.find('#') {
@@ -402,7 +403,7 @@ pub fn strategy() -> BoxedStrategy<Case> {
     let params = prop::collection::vec(param, 0..=4);
     let marketing = prop::collection::vec((any::<u8>(), 0usize..12, pick(vec!["x".to_string(), "news letter".to_string(), "a+b".to_string(), "%C3%A9".to_string(), "".to_string(), "50%25ad".to_string(), "news%26mail".to_string(), "a%3Db".to_string(), "%2541".to_string()])), 0..=2);
     let repeat = prop::option::weighted(0.12, (any::<u8>(), any::<u8>(), pick(vec!["1".to_string(), "2".to_string(), "".to_string(), "%41".to_string(), "x+y".to_string()])));
-    (config_strategy(), path, params, marketing, prop::collection::vec(any::<u16>(), 4), any::<u16>(), (repeat, prop::bool::weighted(0.25), 0u8..4, prop::option::weighted(0.08, any::<u8>())))
+    (config_strategy(), path, params, marketing, prop::collection::vec(any::<u16>(), 4), any::<u16>(), (repeat, prop::bool::weighted(0.25), 0u8..6, prop::option::weighted(0.08, any::<u8>())))
         .prop_map(|(config, path, params, marketing, perm, mutate_at, (repeat, host_marker, target_kind, empty_param))| {
             // keep decoded keys distinct under case folding, non-empty, and outside the marketing set
             let mut seen: Vec<String> = Vec::new();
